@@ -23,6 +23,11 @@ def shards(mode, bin_, n, **kw):
 
 
 PROPS = {
+    "C20": {
+        "runs": [{"mode": "native-dev", "bin": "c20"}],
+        "expect_monitors": ["serde_round_trip_and_shape", "serde_helpers"],
+        "assumptions": ASSUME_COMMON + ["serde_json 1.x (with float_roundtrip) and ron 0.8.0 print and parse floats exactly", "field names of each colour type typed into the harness from the public documentation"],
+    },
     "C19": {
         "runs": [native("c19")],
         "expect_monitors": ["samples_within_requested_range", "samples_uniform_in_volume"],
